@@ -39,6 +39,9 @@ class ReadStream(Stream):
             idx = list(range(n))
             rng.shuffle(idx)
             S = [m2j(rand_matrix(rng, n, n, 1, zero_p=0.1) * 4) for _ in range(ns)]
+            if rng.random() < 0.25:          # a sweep that STARTS at a reciprocal (symmetric) point
+                M0 = j2m(S[0]).reshape(n, n)
+                S[0] = m2j((M0 + M0.T) / 2)
             pins = rng.sample(range(n), rng.randint(0, n))
             u = [[k, [z.real, z.imag]] for k, z in ((k, rand_dyadic(rng, 16, 8)) for k in pins)]
             out.append({"idx": idx, "S": S, "u": u, "p": rng.randrange(n), "q": rng.randrange(n),
@@ -70,6 +73,13 @@ class ReadStream(Stream):
             out["data"] = [(complex(dt["T"].to_numpy()[r]), complex(dt["Amplitude"].to_numpy()[r]))
                            for r in range(len(d["S"]))]
             out["AT0"] = (complex(mod.get_A(P, Q)), complex(mod.get_T(P, Q)))
+            # the full sweep table (also what export writes): its (p, q) and (q, p) columns are the same slices of S
+            fd = mod.get_full_data()
+            PP, QQ = (P if isinstance(P, Pin) else Pin(P)), (Q if isinstance(Q, Pin) else Pin(Q))
+            rev = mod.get_data(Q, P)
+            out["fulldata_ok"] = bool(
+                np.array_equal(np.asarray(fd[(PP, QQ)]), dt["Amplitude"].to_numpy())
+                and np.array_equal(np.asarray(fd[(QQ, PP)]), rev["Amplitude"].to_numpy()))
             return out
 
         def lit(r):
@@ -85,7 +95,8 @@ class ReadStream(Stream):
             r2 = reads(u_pin, Pin(p), Pin(q))
         except Exception:
             r2 = None
-        same = r1 is not None and r2 is not None and json.dumps(r1, default=str) == json.dumps(r2, default=str)
+        same = (r1 is not None and r2 is not None and json.dumps(r1, default=str) == json.dumps(r2, default=str)
+                and r1["fulldata_ok"] and r2["fulldata_ok"])
         Sm = clist(cmat(j2m(M).reshape(n, n), cq) for M in d["S"])
         return ("{| rd_idx := %s; rd_S := %s; rd_u := %s; rd_pq := (%s, %s); rd_power := %s; rd_same := %s; "
                 "rd_out0 := %s; rd_full := %s; rd_data := %s; rd_AT0 := %s |}"
